@@ -41,7 +41,7 @@ def make_cfg(rng, k):
     c.simulation.target.source_obst = float([10.0, 3600.0, 86400.0, 30 * 86400.0][k % 4])
     c.detector.initial_position.altitude = float([525.0, 33.0, 36000.0, 1000.0][(k // 2) % 4])
     c.detector.initial_position.latitude = float([rng.uniform(-1.5, 1.5), math.pi / 2, -math.pi / 2, 0.0][(k // 3) % 4])
-    c.detector.initial_position.longitude = float([rng.uniform(-math.pi, math.pi), math.pi, -math.pi, 0.0][(k // 5) % 4])
+    c.detector.initial_position.longitude = float([rng.uniform(-2 * math.pi, 2 * math.pi), math.pi, -math.pi, 0.0][(k // 5) % 4])  # any convention (0..360, +-180)
     aH = G.horizon_nadir_angle(R, c.detector.initial_position.altitude)
     if k % 3 == 1 or math.radians(7) >= aH:
         c.simulation.angle_from_limb = float(rng.choice([0.05, 0.3, 0.9]) * aH)
